@@ -560,7 +560,7 @@ func init() {
 		ID: "C19",
 		Rule: "cases = generated function signatures (reflect.FuncOf/MakeFunc over an 11-type pool, arity 0-4, variadic or not, 0-3 results) x argument lists (well-typed, " +
 			"one value replaced, one dropped, one extra, untyped nil) x result options (none / CallResults / CallResultsSlice with valid and invalid targets); plus complete enumeration of a reduced pool " +
-			"(arity<=2 over the value pool) and a huge-variadic family; each case is compared with an independent well-typedness reference. non-trivial = the case mixes at least one argument with a result option or is ill-typed; " +
+			"(arity<=2 over the value pool), a huge-variadic family, and homonymous-types: pairs of signatures that differ only in two distinct types which print identically (function-local types with one name), called one after the other in one process with well-typed and cross-typed arguments and targets; each case is compared with an independent well-typedness reference. non-trivial = the case mixes at least one argument with a result option or is ill-typed; " +
 			"distinct = distinct (signature, args, targets) descriptions",
 		Assumptions: []string{
 			"CallArgs is always supplied unless the function takes no parameters (the statement speaks of Call with CallArgs and CallResults/CallResultsSlice)",
@@ -573,6 +573,7 @@ func init() {
 			{Name: "nil-directed", N: core.TierN(1, 1), Solo: true, Run: c19NilHuge},
 			{Name: "huge-variadic", N: core.TierN(1, 1), Solo: true, Run: c19Huge},
 			{Name: "shared-options", N: core.TierN(8, 80), Batch: 2, Run: c19SharedOptions},
+			{Name: "homonymous-types", N: core.TierN(20, 400), Batch: 5, Run: c19Homonymous},
 		},
 	})
 }
@@ -790,4 +791,119 @@ func c19SharedOptions(c *core.Ctx) {
 	c.Op("call", 4*iters)
 	c.Nontrivial()
 	c.Sig("shared", c.Index)
+}
+
+// Two distinct struct types that print identically ("props.T"): signatures that differ only in these have equal
+// String() but are different types.
+func c19HomonymA() (reflect.Type, any) {
+	type T struct{ A int }
+	return reflect.TypeOf(T{}), T{A: 1}
+}
+
+func c19HomonymB() (reflect.Type, any) {
+	type T struct{ B string }
+	return reflect.TypeOf(T{}), T{B: "b"}
+}
+
+// c19Subst returns a copy of the case with type a replaced by type b in the signature and in what the body returns
+// (so that the function itself stays well-formed); arguments and targets are replaced only if all is set.
+func c19Subst(k *c19Case, a, b reflect.Type, va, vb any, all bool) *c19Case {
+	st := func(t reflect.Type) reflect.Type {
+		if t == a {
+			return b
+		}
+		if t.Kind() == reflect.Slice && t.Elem() == a {
+			return reflect.SliceOf(b)
+		}
+		return t
+	}
+	sv := func(v any) any {
+		if v != nil && reflect.TypeOf(v) == a {
+			return vb
+		}
+		return v
+	}
+	n := *k
+	n.in, n.out, n.rets, n.args, n.targets = nil, nil, nil, nil, nil
+	for _, t := range k.in {
+		n.in = append(n.in, st(t))
+	}
+	for _, t := range k.out {
+		n.out = append(n.out, st(t))
+	}
+	for _, v := range k.rets {
+		n.rets = append(n.rets, sv(v))
+	}
+	for _, v := range k.args {
+		if all {
+			v = sv(v)
+		}
+		n.args = append(n.args, v)
+	}
+	for _, t := range k.targets {
+		if t != nil && reflect.TypeOf(t) == reflect.PointerTo(a) {
+			if all {
+				t = reflect.New(b).Interface()
+			} else {
+				t = reflect.New(a).Interface() // a fresh target of the other type
+			}
+		}
+		n.targets = append(n.targets, t)
+	}
+	if k.sliceTgt != nil && reflect.TypeOf(k.sliceTgt) == reflect.PointerTo(reflect.SliceOf(a)) {
+		if all {
+			n.sliceTgt = reflect.New(reflect.SliceOf(b)).Interface()
+		} else {
+			n.sliceTgt = reflect.New(reflect.SliceOf(a)).Interface()
+		}
+	}
+	return &n
+}
+
+// c19Homonymous: signature pairs that differ only in two homonymous types, used one after the other (whatever the
+// library remembers about a signature must be keyed by the type itself, not by how it prints).
+func c19Homonymous(c *core.Ctx) {
+	ta, va := c19HomonymA()
+	tb, vb := c19HomonymB()
+	if ta == tb || ta.String() != tb.String() {
+		c.Inconclusive("the two local types are not homonymous (%s, %s)", ta, tb)
+		return
+	}
+	// the generator draws from the global pools: add the first type for the duration of this scenario
+	c19Types = append(c19Types, ta, ta, ta)
+	c19Values = append(c19Values, va)
+	defer func() { c19Types = c19Types[:len(c19Types)-3]; c19Values = c19Values[:len(c19Values)-1] }()
+	calls, pairs := 0, 0
+	for i := 0; i < 200; i++ {
+		k := genC19(c.Rng)
+		uses := false
+		for _, t := range append(append([]reflect.Type{}, k.in...), k.out...) {
+			if t == ta || t.Kind() == reflect.Slice && t.Elem() == ta {
+				uses = true
+			}
+		}
+		if !uses {
+			continue
+		}
+		pairs++
+		first, second := ta, tb
+		fv, sv := va, vb
+		if c.Rng.IntN(2) == 0 {
+			// the other one first
+			k = c19Subst(k, ta, tb, va, vb, true)
+			first, second, fv, sv = tb, ta, vb, va
+		}
+		for _, kk := range []*c19Case{k, c19Subst(k, first, second, fv, sv, true), c19Subst(k, first, second, fv, sv, false), k} {
+			calls++
+			if o := kk.run(); o != nil {
+				c19Report(c, kk, o)
+			}
+		}
+	}
+	c.Op("call", calls)
+	c.Count("homonymous_signature_pairs", pairs)
+	if pairs > 0 {
+		c.Nontrivial()
+	}
+	c.Sig("homonymous", c.Seed, pairs)
 }
